@@ -13,7 +13,7 @@ def run(tier, argv):
     cfg = gficheck.write_cfg(f"C02_{tier}.cfg", progs, 1, ["generate"], 4 if tier == "quick" else 6, "same", INV)
     for variant in ("eager", "jit"):
         info = gficheck.run_config(chk, cfg, {"generate"}, variant=variant,
-                                   max_replay=(1500 if variant == "eager" else 500) if tier == "quick" else (None if variant == "eager" else 6000),
+                                   max_replay=(1000 if variant == "eager" else 400) if tier == "quick" else (None if variant == "eager" else 6000),
                                    label=f"C02_{tier}/{variant}", timeout=3000)
         chk.cov.setdefault("replay", []).append({"variant": variant, **info})
     chk.cov["rule"] = ("every (program, argument, lane-closed subset of leaf addresses with every value assignment as constraint, outcome of "
